@@ -8,6 +8,7 @@ mod c07;
 mod c09;
 mod c11;
 mod c13;
+mod c14;
 mod c17;
 mod enum_fol;
 mod dom;
@@ -83,6 +84,8 @@ fn main() {
         "C08" => c01::run(c01::Mode::C08, &run),
         "C07" => c07::run(c07::Mode::C07, &run),
         "C05" => c05::run(&run),
+        "C14" => c14::run(c14::Mode::C14, &run),
+        "C15" => c14::run(c14::Mode::C15, &run),
         "C13" => c13::run(&run),
         "C11" => c11::run(&run),
         "C09" => c09::run(c09::Mode::C09, &run),
